@@ -230,7 +230,7 @@ Proof.
     rewrite (spao_of_opt_ext _ o) by (cbn [o_type o_data]; auto). rewrite D. reflexivity.
   - (* host address *) destruct TP as [TP | ->]; [discriminate|].
     assert (Wh : wf_host x).
-    { destruct x; cbn [wf_host]; andb_split W; b2p; intuition. }
+    { destruct x; cbn [wf_host]; rewrite ?andb_true_iff in W; b2p; intuition; b2p; auto. }
     pose proof (parse_pack x Wh) as P. destruct (pack_addr x) as [t raw]. cbn [fst snd] in P.
     eexists. split; [reflexivity|]. rewrite app_nil_r. rewrite P. reflexivity.
 Qed.
@@ -334,7 +334,9 @@ Proof.
     + right. eexists. split; [exact E | exact M].
   - (* spao *) split; [reflexivity|]. right.
     destruct (spao_of_opt _) as [p| |] eqn:E; cbn [bind] in D; try discriminate.
-    injection D as <- <-. destruct (spao_enc_dec _ _ W E) as (o' & E' & Hd & _).
+    injection D as <- <-.
+    match type of E with spao_of_opt ?o = _ =>
+      destruct (spao_enc_dec o p W E) as (o' & E' & Hd & _) end.
     cbn [encode]. rewrite E'. cbn [bind]. eexists. split; [reflexivity|].
     rewrite app_nil_r. exact Hd.
   - (* host address *) split; [reflexivity|]. destruct bs as [|t raw]; [discriminate|].
@@ -401,5 +403,5 @@ Proof.
   intros W O K. destruct (decode l bs) as [[h rest]| |] eqn:D; [|reflexivity|].
   - destruct (dec_ok _ _ _ _ W D K) as (O' & _). congruence.
   - exfalso. destruct l; try (now apply (decode_no_panic _ bs) in D; [|discriminate]).
-    discriminate.
+    all: try discriminate.
 Qed.
